@@ -307,5 +307,8 @@ def sorted_tests(suite_or_case, unpack_outer=False):
         raise ValueError(f"Duplicate test ids detected: {pformat(duplicates)}")
 
     tests = _flatten_tests(suite_or_case, unpack_outer=unpack_outer)
-    tests.sort()
+    # An empty custom suite has no test to take an id from: its key is None,
+    # which does not compare with str. Sort such suites first, and never fall
+    # back to comparing the tests themselves.
+    tests.sort(key=lambda item: (item[0] is not None, item[0]))
     return unittest.TestSuite([test for (sort_key, test) in tests])
